@@ -291,7 +291,8 @@ class MonteCarloNoise:
             op = copy.deepcopy(op)
             is_controlled = False
             if isinstance(op, ops.OneQubitGateWrapper):
-                op_type_seq = [type(gate) for gate in op.unwrap()]
+                # op.noise[i] belongs to op.operations[i] (unwrap() returns the gates in reversed order)
+                op_type_seq = list(op.operations)
                 noise_list = self._find_wrapped_noise(op_type_seq, op.reg_type)
                 op.noise = noise_list
                 noisy_ops.append(op)
